@@ -143,8 +143,14 @@ func zzApply(c filesystem.Filespace, b *reftree.Node) (string, bool) {
 			}
 		}
 	}
+	// a REFUSED operation is no operation: the history goes on with the twin
+	// unchanged ("the same successful operations")
+	zzRefused = err != nil
 	return zzOp[op], err == nil && okB
 }
+
+// zzRefused: the last zzApply was refused by the cache.
+var zzRefused bool
 
 // ZZVerifC06Commit: K cache operations with overlapping paths, then Commit
 // (optionally with one injected remote failure and a retry): the remote is
@@ -234,8 +240,13 @@ func zzCommit(k, f int) {
 		if zzStepCfg != nil {
 			zzStepCfg(i)
 		}
+		zzRefused = false
 		name, inside := zzApply(c, b)
-		nd.Assume(inside)
+		if zzRefused {
+			name += "(refused)"
+		} else {
+			nd.Assume(inside)
+		}
 		if i > 0 {
 			hist += "+"
 		}
@@ -294,8 +305,13 @@ func zzRYW(k int) {
 		if zzStepCfg != nil {
 			zzStepCfg(i)
 		}
+		zzRefused = false
 		name, inside := zzApply(c, b)
-		nd.Assume(inside)
+		if zzRefused {
+			name += "(refused)"
+		} else {
+			nd.Assume(inside)
+		}
 		if i > 0 {
 			hist += "+"
 		}
